@@ -52,7 +52,12 @@ type Shape struct {
 type Rec struct {
 	Vals []string   `json:"vals"`
 	Subs [][]string `json:"subs,omitempty"`
+	// Dup renders the first column twice (xml only), so that a field xpath on it matches two nodes.
+	Dup bool `json:"dup,omitempty"`
 }
+
+// BoomToken as value of c0 makes the javascript transform flavour (Xform 2) throw.
+const BoomToken = "BOOM"
 
 // HasSubs says whether the shape carries sub-records.
 func (s Shape) HasSubs() bool { return s.NSub > 0 }
@@ -375,6 +380,9 @@ func (s Shape) transformDecls() obj {
 			obj{"xpath": colName(s.NCols - 1), "no_trim": true}}}}
 		fields["jsn"] = obj{"custom_func": obj{"name": "javascript_with_context", "args": []interface{}{
 			obj{"const": "JSON.stringify(JSON.parse(_node)).length + (typeof a === 'undefined' ? 0 : 1000)"}}}}
+		fields["jsf"] = obj{"custom_func": obj{"name": "javascript", "args": []interface{}{
+			obj{"const": "(function(){ if (a.indexOf('BOOM') === 0) { throw new Error('boom') } return a.length })()"},
+			obj{"const": "a"}, obj{"xpath": "c0"}}}}
 		fields["js2"] = obj{"custom_func": obj{"name": "javascript", "args": []interface{}{
 			obj{"const": "typeof b === 'undefined' ? a.toUpperCase() : 'leak'"}, obj{"const": "a"}, obj{"xpath": "c0"}}}}
 	}
@@ -821,6 +829,9 @@ func (s Shape) RenderParts(recs []Rec) (pro string, parts []string, epi string) 
 			b.WriteString("<rec>")
 			for j, v := range r.Vals {
 				fmt.Fprintf(&b, "<%s>%s</%s>", colName(j), xmlEscape(v), colName(j))
+				if j == 0 && r.Dup {
+					fmt.Fprintf(&b, "<%s>%s</%s>", colName(j), xmlEscape(v), colName(j))
+				}
 			}
 			for _, sub := range r.Subs {
 				b.WriteString("<sub>")
